@@ -267,6 +267,25 @@ def _mergeable(
         }
         return bool(number_literal_aliases & ordered)
 
+    def _null_extended_projection_blocks_merge() -> bool:
+        """
+        When the inner select sits on the null-supplying side of an outer join its rows can be
+        null-extended. A projection that isn't a plain column (e.g. a literal or COALESCE(1, x))
+        is NULL for those rows, but would be evaluated to a non-NULL value once inlined.
+        """
+        joins = outer_args.get("joins") or []
+        if isinstance(from_or_join, exp.Join):
+            null_supplied = from_or_join.side in ("LEFT", "FULL")
+            later_joins = joins[joins.index(from_or_join) + 1 :] if from_or_join in joins else []
+        else:
+            null_supplied = False
+            later_joins = joins
+
+        null_supplied = null_supplied or any(j.side in ("RIGHT", "FULL") for j in later_joins)
+        return null_supplied and any(
+            not isinstance(s.unalias(), exp.Column) for s in inner_select.selects
+        )
+
     if (
         not isinstance(outer, exp.Select)
         or outer.is_star
@@ -314,6 +333,7 @@ def _mergeable(
         and not _literal_group_unmergeable(number_literal_aliases)
         and not _literal_in_order_by(number_literal_aliases)
         and not (inner_scope.is_cte and _is_recursive())
+        and not _null_extended_projection_blocks_merge()
     )
 
 
